@@ -3,6 +3,26 @@
 use std::io::Write;
 use verif_harness::{respgen, seed_from_env, Rng};
 
+fn run_conn_cases<W: Write>(cases: &[verif_harness::connrun::ConnCase], tmpdir: &str, out: &mut W) {
+    use verif_harness::connrun::{run_case, Timing};
+    let workers: usize = std::env::var("VERIF_JOBS").ok().and_then(|s| s.parse().ok()).unwrap_or(12);
+    let next = std::sync::atomic::AtomicUsize::new(0);
+    let results: Vec<std::sync::Mutex<Option<String>>> = cases.iter().map(|_| std::sync::Mutex::new(None)).collect();
+    std::thread::scope(|sc| {
+        for _ in 0..workers {
+            sc.spawn(|| loop {
+                let i = next.fetch_add(1, std::sync::atomic::Ordering::SeqCst);
+                if i >= cases.len() { break; }
+                let line = run_case(i as u64, &cases[i], tmpdir, &Timing::default());
+                *results[i].lock().unwrap() = Some(line);
+            });
+        }
+    });
+    for r in results {
+        writeln!(out, "{}", r.into_inner().unwrap().unwrap_or_default()).unwrap();
+    }
+}
+
 fn main() {
     let args: Vec<String> = std::env::args().collect();
     let kind = args.get(1).map(|s| s.as_str()).unwrap_or("");
@@ -35,6 +55,66 @@ fn main() {
                 let line = respgen::run_case(i as u64, c, &tmpdir);
                 writeln!(out, "{}", line).unwrap();
             }
+        }
+        "conn" => {
+            use verif_harness::conngen as g;
+            use verif_harness::connrun::{run_case, ConnCase, Timing};
+            let gen = args.get(2).map(|s| s.as_str()).unwrap_or("mixed");
+            let n: usize = args.get(3).and_then(|s| s.parse().ok()).unwrap_or(100);
+            let mut cases: Vec<ConnCase> = vec![];
+            for g1 in gen.split('+') {
+                match g1 {
+                    "c02" => (0..n).for_each(|_| cases.push(g::gen_c02(&mut rng))),
+                    "c03" => (0..n).for_each(|i| cases.push(if i % 10 == 9 { g::gen_upgrade(&mut rng) } else { g::gen_body(&mut rng, false, i % 7 == 0) })),
+                    "c09" => (0..n).for_each(|_| cases.push(g::gen_body(&mut rng, true, false))),
+                    "c12" => (0..n).for_each(|_| cases.push(g::gen_c12(&mut rng))),
+                    "c18" => (0..n).for_each(|_| cases.push(g::gen_c18(&mut rng))),
+                    "mixed" => (0..n).for_each(|_| cases.push(g::gen_mixed(&mut rng))),
+                    "c10" => {
+                        // every malformed class at every pipeline position, early and late answers
+                        let mut classes: Vec<(&'static str, Vec<u8>)> = vec![];
+                        for b in g::BAD_400 { classes.push(("e400", b.to_vec())); }
+                        for b in g::BAD_417 { classes.push(("e417", b.to_vec())); }
+                        for b in g::BAD_505 { classes.push(("e505", b.to_vec())); }
+                        for b in g::BAD_SILENT { classes.push(("silent", b.to_vec())); }
+                        let reps = std::cmp::max(1, n / 100);
+                        for _ in 0..reps {
+                            for (cl, raw) in &classes {
+                                for pos in 0..4 {
+                                    for late in [false, true] {
+                                        if late && pos == 0 { continue; }
+                                        cases.push(g::gen_bad(&mut rng, cl, raw, pos, late));
+                                    }
+                                }
+                            }
+                        }
+                    }
+                    "c16" => {
+                        let reps = std::cmp::max(1, n / 100);
+                        for _ in 0..reps {
+                            for raw in g::smuggle_variants() {
+                                for pos in 0..3 {
+                                    cases.push(g::gen_bad(&mut rng, "smug", &raw, pos, false));
+                                }
+                            }
+                        }
+                    }
+                    _ => {}
+                }
+            }
+            run_conn_cases(&cases, &tmpdir, &mut out);
+            let _ = (run_case, Timing::default());
+        }
+        "replay" => {
+            let path = args.get(2).expect("replay file");
+            let text = std::fs::read_to_string(path).expect("read replay file");
+            let mut conn_cases = vec![];
+            for l in text.lines() {
+                if l.starts_with('#') || l.trim().is_empty() { continue; }
+                if let Some(c) = verif_harness::connrun::case_from_line(l) { conn_cases.push(c); }
+                else if l.starts_with("resp ") { writeln!(out, "{}", l).unwrap(); }
+            }
+            run_conn_cases(&conn_cases, &tmpdir, &mut out);
         }
         _ => {
             eprintln!("usage: pristine resp <mode> <n> <full>");
